@@ -44,8 +44,9 @@ class VStr(V):
 class VInt(V):
     """unsigned 64-bit integer (usize/u64/u32 are all modelled at 64 bits)"""
 
-    def __init__(self, e):
+    def __init__(self, e, maxval=None):
         self.e = e if z3.is_expr(e) else bv(e)
+        self.maxval = maxval  # optional known upper bound (keeps decimal rendering small)
 
     def __repr__(self):
         return "VInt(%s)" % self.e
@@ -290,6 +291,9 @@ class Interp:
         self.fresh_n = 0
         self.models_used = set()
         self.overrides = {}  # function name -> python model(I, args, pc) (stubs, listed in evidence)
+        self.parse_models = {}  # type name -> model(I, VStr, pc) for str::parse::<T>()
+        self.events = []  # (guard, tag, payload) recorded by stubs (e.g. "request reached the transport")
+        self.self_ty = []
         self.fns_executed = set()
         self.depth = 0
 
@@ -340,6 +344,13 @@ class Interp:
         self.fns_executed.add(fname)
         f = self.fns[fname]
         params = f["sig"]["params"]
+        own = fname
+        if own.startswith("<"):
+            own = own[1:].split(" as ")[0]
+        elif "::" in own:
+            own = own.rsplit("::", 1)[0]
+        else:
+            own = None
         if len(params) != len(args):
             raise Unsupported("arity mismatch calling %s" % fname)
         env = {}
@@ -349,7 +360,11 @@ class Interp:
             else:
                 c, binds = self.match_pat(p["pat"], a)
                 env.update(binds)
-        return self.run_body(fname, f["body"], env, pc)
+        self.self_ty.append(own)
+        try:
+            return self.run_body(fname, f["body"], env, pc)
+        finally:
+            self.self_ty.pop()
 
     def run_body(self, name, body, env, pc):
         self.depth += 1
@@ -642,7 +657,10 @@ class Interp:
             fields[f["member"]] = v
         if e.get("rest") is not None:
             raise Unsupported("struct update syntax")
-        return VStruct(e["path"].split("::")[-1], fields), env, pc
+        nm = e["path"].split("::")[-1]
+        if nm == "Self" and self.self_ty and self.self_ty[-1]:
+            nm = self.self_ty[-1]
+        return VStruct(nm, fields), env, pc
 
     def e_if(self, e, env, pc):
         cond = e["cond"]
@@ -913,7 +931,7 @@ class Interp:
             return as_bstr(v)
         if isinstance(v, VInt):
             self.models_used.add("Display for unsigned integers (fresh decimal digits constrained by sum d_i*10^i == v)")
-            return bstr.int_to_str(v.e, self.side)
+            return bstr.int_to_str(v.e, self.side, getattr(v, "maxval", None))
         if isinstance(v, VStruct) and ("<%s as Display>::fmt" % v.name) in self.fns:
             return self.display_struct(v).e
         # anything else (errors, Debug output) is opaque
@@ -961,6 +979,8 @@ class Interp:
                 return (self.overrides.get(p) or self.overrides[last])(self, args, pc), env, pc
             if p in self.fns:
                 return self.call(p, args, pc), env, pc
+            if p.startswith("Self::") and self.self_ty and self.self_ty[-1] and (self.self_ty[-1] + "::" + last) in self.fns:
+                return self.call(self.self_ty[-1] + "::" + last, args, pc), env, pc
             if "::" in p and last in self.fns and not last[:1].isupper():
                 return self.call(last, args, pc), env, pc
             if ("Self::" in p or "::" in p) and any(k.endswith("::" + last) for k in self.fns):
@@ -1009,7 +1029,11 @@ class Interp:
             env[recv_ast["path"]] = VStr(bstr.concat(recv.e, as_bstr(args[0]), self.ob(pc)))
             return VUnit(), env, pc
         if name == "push" and isinstance(recv, VVec):
-            raise Unsupported("Vec::push (growing vectors are not modelled)")
+            if recv_ast["k"] != "path" or recv_ast["path"] not in env:
+                raise Unsupported("push on non-variable")
+            env = dict(env)
+            env[recv_ast["path"]] = vec_push(recv, args[0])
+            return VUnit(), env, pc
         tname = type(recv).__name__
         key = (tname, name)
         if isinstance(recv, VEnum):
@@ -1042,11 +1066,45 @@ class Interp:
             pc = z3.simplify(z3.Or(pcb, inactive))
         return VUnit(), env, pc
 
+    def e_matches(self, e, env, pc):
+        v, env, pc = self.eval(e["scrut"], env, pc)
+        c, binds = self.match_pat(e["pat"], v)
+        if e.get("guard") is not None:
+            envg = dict(env)
+            envg.update(binds)
+            g, _, _ = self.eval(e["guard"], envg, z3.And(pc, c))
+            c = z3.And(c, g.e)
+        return VBool(c), env, pc
+
+    def e_range(self, e, env, pc):
+        lo = hi = None
+        if e["lo"] is not None:
+            lo, env, pc = self.eval(e["lo"], env, pc)
+        if e["hi"] is not None:
+            hi, env, pc = self.eval(e["hi"], env, pc)
+        if lo is None or hi is None or cval(lo.e) is None or cval(hi.e) is None:
+            raise Unsupported("range with non-constant bounds")
+        a, b = cval(lo.e), cval(hi.e) + (1 if e["inclusive"] else 0)
+        if b - a > 64:
+            raise Unsupported("range longer than 64")
+        return VVec([VInt(i) for i in range(a, b)]), env, pc
+
     def e_unsupported(self, e, env, pc):
         raise Unsupported("syntax not handled by astdump: " + e.get("text", "")[:80])
 
     def e_let_cond(self, e, env, pc):
         raise Unsupported("let in expression position")
+
+
+def vec_push(vec, item):
+    """vec ++ [item] for a vector of symbolic length (one more slot of capacity)"""
+    items = []
+    for i in range(len(vec.items) + 1):
+        if i < len(vec.items):
+            items.append(ite(vec.n == bv(i), item, vec.items[i]))
+        else:
+            items.append(item)
+    return VVec(items, vec.n + bv(1))
 
 
 def pat_names(p):
@@ -1142,6 +1200,10 @@ def m_bytes(I, s, args, pc, e):
 
 def m_parse(I, s, args, pc, e):
     tf = (e.get("turbofish") or "").replace(" ", "")
+    for tname, model in I.parse_models.items():
+        if tname in tf:
+            I.models_used.add("str::parse::<%s> (model in the property module)" % tname)
+            return model(I, s, pc)
     tys = [t for t in ("usize", "u64", "u32") if t in tf]
     if not tys:
         raise Unsupported("parse::<%s>" % tf)
@@ -1154,6 +1216,8 @@ def _forall_items(I, it, clo, pc, want_all):
     vec = it.vec if isinstance(it, VIter) else it
     acc = z3.BoolVal(True) if want_all else z3.BoolVal(False)
     for i in range(len(vec.items) - 1, -1, -1):
+        if z3.is_false(z3.simplify(z3.And(pc, ugt(vec.n, bv(i))))):
+            continue
         r = I.call_closure(clo, [vec.items[i]], z3.And(pc, ugt(vec.n, bv(i))))
         if not isinstance(r, VBool):
             raise Unsupported("closure in all/any must return bool")
@@ -1255,7 +1319,7 @@ def m_opt_is_none(I, o, args, pc, e):
 
 def m_opt_map(I, o, args, pc, e):
     pl = o.payload.get("Some")
-    if pl is None:
+    if pl is None or z3.is_false(z3.simplify(z3.And(pc, is_some(o)))):
         return none()
     r = I.call_closure(args[0], [pl[0]], z3.And(pc, is_some(o)))
     return opt(is_some(o), r)
@@ -1263,7 +1327,7 @@ def m_opt_map(I, o, args, pc, e):
 
 def m_opt_and_then(I, o, args, pc, e):
     pl = o.payload.get("Some")
-    if pl is None:
+    if pl is None or z3.is_false(z3.simplify(z3.And(pc, is_some(o)))):
         return none()
     r = I.call_closure(args[0], [pl[0]], z3.And(pc, is_some(o)))
     if not isinstance(r, VEnum) or r.ty != "Option":
@@ -1362,6 +1426,7 @@ METHODS = {
     ("Option", "ok_or_else"): m_opt_ok_or_else,
     ("Option", "ok_or"): m_opt_ok_or_else,
     ("Result", "ok"): m_res_ok,
+    ("Result", "map_err"): lambda I, r, a, pc, e: VEnum("Result", r.tag, {"Ok": r.payload.get("Ok", [VUninit()]), "Err": [VUnit()]}),
     ("Result", "is_ok"): m_res_is_ok,
     ("Result", "is_err"): m_res_is_err,
     ("Result", "unwrap"): m_opt_unwrap,
